@@ -7,15 +7,15 @@ Open Scope N_scope.
 (* ---- not(G) ---- *)
 (* A fresh not node asks its goal once; it answers with exactly the substitution it was
    created with iff the goal has no answer, and is spent afterwards (C05 applies). *)
-Theorem not_node_spec kb f ss h tl ot w nd' r c w' :
-  next kb (S f) (NOp ONot ss false true (Some h) tl ot) w = Ok (nd', r, c, w') ->
+Theorem not_node_spec kb bf f ss h tl ot w nd' r c w' :
+  next kb bf (S f) (NOp ONot ss false true (Some h) tl ot) w = Ok (nd', r, c, w') ->
   exists h' sol,
-    next kb f h w = Ok (h', sol, c, w') /\
+    next kb bf f h w = Ok (h', sol, c, w') /\
     r = match sol with Some _ => None | None => Some ss end /\
     dead nd'.
 Proof.
   rewrite next_S. unfold next_body. simpl. intro H.
-  destruct (next kb f h w) as [[[[h' sol] c1] w1]| |] eqn:E; simpl in H; try discriminate.
+  destruct (next kb bf f h w) as [[[[h' sol] c1] w1]| |] eqn:E; simpl in H; try discriminate.
   inversion H; subst. exists h', sol. repeat split; auto. simpl. right. reflexivity.
 Qed.
 
